@@ -12,8 +12,12 @@ NOT_APPLICABLE = {}
 def collect():
     out = {}
     here = os.path.join(os.path.dirname(os.path.abspath(__file__)), "checks")
+    with open(os.path.join(os.path.dirname(os.path.abspath(__file__)), "claimed.txt")) as fh:
+        claimed = {l.strip() for l in fh if l.strip() and not l.startswith("#")}
     for f in sorted(glob.glob(os.path.join(here, "C*.py"))):
         pid = os.path.basename(f)[:-3]
+        if pid not in claimed:
+            continue
         mod = importlib.import_module("mc.checks." + pid)
         meta = getattr(mod, "META", None)
         if not meta or getattr(mod, "DISABLED", False):
